@@ -5,6 +5,7 @@ import (
 	"go/constant"
 	"go/token"
 	"go/types"
+	"sort"
 	"strings"
 
 	"golang.org/x/tools/go/ssa"
@@ -16,7 +17,9 @@ import (
 // reachable only through the "not present" branch of a presence test on the
 // same map and key; addChoice appends only after a scan in which an equal
 // name returns the error.
-func c12NoOverwrite(w *World, r *Report) {
+func c12NoOverwrite(w *World, r *Report) { c12NoOverwriteRule(w, r, "R12.6") }
+
+func c12NoOverwriteRule(w *World, r *Report, rule string) {
 	children := w.Field("schema", "node", "children")
 	choices := w.Field("schema", "node", "choices")
 	f := w.SSAFunc(w.Method("schema", "node", "addChild"))
@@ -64,12 +67,12 @@ func c12NoOverwrite(w *World, r *Report) {
 					}
 				}
 			}
-			r.Check(guarded, "R12.6", "node.addChild stores into children", mu.Pos(), "only on the branch where the name is not present; the present branch returns the redefinition error",
+			r.Check(guarded, rule, "node.addChild stores into children", mu.Pos(), "only on the branch where the name is not present; the present branch returns the redefinition error",
 				"the child map entry can be written although a sibling of that name exists (the presence test has a further condition, or its error branch is gone): the later node silently replaces the earlier one")
 		}
 	}
 	if nUpd == 0 {
-		r.Fail("R12.6", "node.addChild stores into children", f.Pos(), "no store into node.children found")
+		r.Fail(rule, "node.addChild stores into children", f.Pos(), "no store into node.children found")
 	}
 	// addChoice
 	g := w.SSAFunc(w.Method("schema", "node", "addChoice"))
@@ -122,7 +125,7 @@ func c12NoOverwrite(w *World, r *Report) {
 			}
 		}
 	}
-	r.Check(okScan && okAppend, "R12.6", "node.addChoice appends to choices", at, "after a scan of all choices in which an equal name returns the redefinition error",
+	r.Check(okScan && okAppend, rule, "node.addChoice appends to choices", at, "after a scan of all choices in which an equal name returns the redefinition error",
 		"a choice/case can be appended although one of that name exists (the equality test has a further condition, or its error branch is gone)")
 }
 
@@ -671,4 +674,190 @@ func c14DeviateInterleaved(w *World, r *Report) {
 		}
 	}
 	r.Check(same, "R14.10", "doDeviate checks and applies property by property", f.Pos(), "isAllowed(p) then propertyAction(p) in the same iteration", "all properties are checked against the unmodified target before any is applied: a deviate that names the same single-instance property twice (`deviate add { default 1; default 2; }`) is accepted")
+}
+
+// R20.7  checks that run on the built (already filtered) children never turn
+// a child the filter removed into an error: in BuildList's walk over the
+// unique paths an error is raised only about a path element that was found
+// (the empty-leaf test), never for one that is missing among the children.
+func c20UniqueWalk(w *World, r *Report) {
+	f := w.SSAFunc(w.Method("compile", "Compiler", "BuildList"))
+	if f == nil {
+		panic(undecided{"Compiler.BuildList"})
+	}
+	cerr := w.SSAFunc(w.Method("compile", "Compiler", "error"))
+	loops := ssaLoops(f)
+	// the loop over l.Uniques()
+	var outer *ssaLoop
+	for i := range loops {
+		for b := range loops[i].body() {
+			for _, in := range b.Instrs {
+				if ia, ok := in.(*ssa.IndexAddr); ok {
+					if c, ok := ia.X.(*ssa.Call); ok && c.Call.IsInvoke() && c.Call.Method.Name() == "Uniques" {
+						if outer == nil || len(loops[i].body()) > len(outer.body()) {
+							outer = &loops[i]
+						}
+					}
+				}
+			}
+		}
+	}
+	if outer == nil {
+		panic(undecided{"BuildList: loop over l.Uniques()"})
+	}
+	body := outer.body()
+	// the block entered when a child's name matches the path element
+	var matched []*ssa.BasicBlock
+	for b := range body {
+		iff, ok := b.Instrs[len(b.Instrs)-1].(*ssa.If)
+		if !ok {
+			continue
+		}
+		bo, ok := iff.Cond.(*ssa.BinOp)
+		if !ok || (bo.Op != token.NEQ && bo.Op != token.EQL) {
+			continue
+		}
+		isName := func(v ssa.Value) bool {
+			c, ok := v.(*ssa.Call)
+			return ok && c.Call.IsInvoke() && c.Call.Method.Name() == "Name"
+		}
+		if !isName(bo.X) && !isName(bo.Y) {
+			continue
+		}
+		if bo.Op == token.NEQ {
+			matched = append(matched, b.Succs[1])
+		} else {
+			matched = append(matched, b.Succs[0])
+		}
+	}
+	if len(matched) == 0 {
+		panic(undecided{"BuildList: name match in the unique walk"})
+	}
+	n := 0
+	for b := range body {
+		for _, in := range b.Instrs {
+			c, ok := in.(*ssa.Call)
+			if !ok || c.Call.StaticCallee() != cerr {
+				continue
+			}
+			n++
+			dom := false
+			for _, m := range matched {
+				if len(m.Preds) == 1 && (m == b || m.Dominates(b)) {
+					dom = true
+				}
+			}
+			r.Check(dom, "R20.7", fmt.Sprintf("BuildList unique walk: error #%d", n), c.Pos(), "raised about a child that was found", "an error is raised in the unique-path walk without a matching child having been found: under a filter that removed a node on the path, the filtered compile fails although the unfiltered one succeeds")
+		}
+	}
+	if n == 0 {
+		r.OK("R20.7", "BuildList unique walk raises no error", f.Pos(), "no error call in the walk")
+	}
+}
+
+// R18.11  which node a question is asked of. The helpers that decide whether a
+// schema child belongs to a choice take (parent, child); the configuration
+// checker is asked about the case being examined (isActiveDefaultCase) resp.
+// the choice and then the enclosing node (isActiveDefault). Argument roles are
+// derived from where the value comes from: a parameter of the function, or an
+// element of a range over something.
+func c18ArgumentRoles(w *World, r *Report) {
+	role := func(v ssa.Value) string {
+		for {
+			switch x := v.(type) {
+			case *ssa.ChangeInterface:
+				v = x.X
+				continue
+			case *ssa.MakeInterface:
+				v = x.X
+				continue
+			case *ssa.TypeAssert:
+				v = x.X
+				continue
+			}
+			break
+		}
+		switch x := v.(type) {
+		case *ssa.Parameter:
+			return "param " + x.Name()
+		case *ssa.UnOp:
+			if _, ok := x.X.(*ssa.IndexAddr); ok {
+				return "element"
+			}
+		case *ssa.Extract:
+			if _, ok := x.Tuple.(*ssa.Next); ok {
+				return "element"
+			}
+		case *ssa.Call:
+			if x.Call.IsInvoke() {
+				return "call " + x.Call.Method.Name()
+			}
+			if sc := x.Call.StaticCallee(); sc != nil {
+				return "call " + sc.Name()
+			}
+		}
+		return "other"
+	}
+	want := map[string][]string{
+		"hasMandatoryChildren: isAChoice":         {"param sn", "element"},
+		"hasCaseMandatoryChildren: isACaseChoice": {"param nd", "element"},
+		"checkMandatory: isAChoice":               {"call schema", "element"},
+		"isActiveDefault: cfgChkr #1":             {"element"},
+		"isActiveDefault: cfgChkr #2":             {"param sch"},
+		"isActiveDefaultCase: cfg #1":             {"element"},
+	}
+	seen := map[string]bool{}
+	sp := w.SSAPkg("schema")
+	for _, fn := range []string{"hasMandatoryChildren", "hasCaseMandatoryChildren", "checkMandatory", "isActiveDefault", "isActiveDefaultCase"} {
+		f := sp.Func(fn)
+		if f == nil {
+			panic(undecided{"schema." + fn})
+		}
+		dyn := 0
+		type site struct {
+			key  string
+			args []ssa.Value
+			pos  token.Pos
+		}
+		var sites []site
+		for _, b := range f.Blocks {
+			for _, in := range b.Instrs {
+				c, ok := in.(*ssa.Call)
+				if !ok {
+					continue
+				}
+				if sc := c.Call.StaticCallee(); sc != nil && (sc.Name() == "isAChoice" || sc.Name() == "isACaseChoice") {
+					sites = append(sites, site{fn + ": " + sc.Name(), c.Call.Args, c.Pos()})
+				} else if p, ok := c.Call.Value.(*ssa.Parameter); ok && !c.Call.IsInvoke() {
+					if _, isSig := p.Type().Underlying().(*types.Signature); isSig {
+						sites = append(sites, site{fmt.Sprintf("%s: %s", fn, p.Name()), c.Call.Args, c.Pos()})
+					}
+				}
+			}
+		}
+		sort.Slice(sites, func(i, j int) bool { return sites[i].pos < sites[j].pos })
+		for _, s := range sites {
+			key := s.key
+			if strings.Contains(key, ": cfg") {
+				dyn++
+				key = fmt.Sprintf("%s #%d", key, dyn)
+			}
+			var got []string
+			for _, a := range s.args {
+				got = append(got, role(a))
+			}
+			seen[key] = true
+			exp, known := want[key]
+			if !known {
+				r.Fail("R18.11", key, s.pos, "call site not in the reviewed table (roles "+strings.Join(got, ", ")+")")
+				continue
+			}
+			r.Check(strings.Join(got, ",") == strings.Join(exp, ","), "R18.11", key, s.pos, "asked of ("+strings.Join(exp, ", ")+")", "the question is asked of ("+strings.Join(got, ", ")+") instead of ("+strings.Join(exp, ", ")+"): e.g. swapped parent/child makes every member of a nested choice look like an ordinary child, so mandatory nodes of inactive nested cases are reported missing; asking the enclosing choice instead of the case makes the defaults of an inactive case active")
+		}
+	}
+	for k := range want {
+		if !seen[k] {
+			r.Fail("R18.11", k, token.NoPos, "reviewed call site no longer found")
+		}
+	}
 }
